@@ -165,3 +165,24 @@ Theorem C09_value_print_parse_round_trip_text : forall intern unintern D, D_name
   literal_parse intern D T (print_tokens (map kind (lit_tokens unintern l))) = COk l.
 Proof. exact value_roundtrip_text. Qed.
 Print Assumptions C09_value_print_parse_round_trip_text.
+
+(* ... and for every OUTPUT the API can decode (Lang/LiteralDecode.v, Check/LitOutputRoundTrip.v): the
+   decoder only produces canonical values of the type ([from_bits_has_type], under [dwf]: no
+   Unspecified number types, variant names pairwise distinct), so for types that are
+   [type_always_printable] (no zero-length array; no array whose element type is a tuple / array
+   carrying a signed number - the two families that are recorded findings of the real code) EVERY
+   decoded value, printed and parsed back as the type, is itself: no condition on the value. *)
+From GV Require Import Lang.LiteralDecode Check.LitOutputRoundTrip.
+
+Theorem C09_decoder_produces_canonical_values : forall t bits l,
+  LiteralDecode.dwf t = true -> Literal.from_bits t bits = Ok (Some l) -> Literal.has_type l t = true.
+Proof. exact LiteralDecode.from_bits_has_type. Qed.
+Print Assumptions C09_decoder_produces_canonical_values.
+
+Theorem C09_every_decoded_output_prints_and_parses_back : forall intern unintern D,
+  D_names_ok intern unintern D -> forall E T r fuel bits v,
+  Types.wf E r = true -> LiteralDecode.dwf r = true -> type_always_printable r = true ->
+  rty_of_cty intern D fuel T = Some r -> Literal.from_bits r bits = Ok (Some v) ->
+  literal_parse_tokens intern D T (lit_tokens unintern v) = COk v.
+Proof. exact output_roundtrip_all. Qed.
+Print Assumptions C09_every_decoded_output_prints_and_parses_back.
